@@ -18,6 +18,7 @@ import (
 )
 
 type World struct {
+	outCache map[[2]any]*outSum
 	P     *load.Program
 	Prog  *ssa.Program
 	Funcs []*ssa.Function // every SSA function (incl. closures, methods) of repo + fixture packages
